@@ -225,8 +225,17 @@ def c10_node(n, parent, tlds=None):
         if not local or not at or not name or tld.upper() not in tlds:
             msgs.append(f"network.email value {v!r} is not local-part@domain with a registered TLD")
     elif n.type == "network.url":
-        m = stdre.match(rb"(?i)(https?|ftp)://(?:[^/?#@]*@)?(\[[^\]]*\]|[^/?#:@]*)", v)
-        if not m or not m.group(2):
+        # authority = up to the first / ? #; credentials end at the LAST @ (an unescaped @ inside them is irregular but it is the usual reading: WHATWG, urllib);
+        # host = the rest without a trailing :port, or a bracketed literal
+        m = stdre.match(rb"(?i)(https?|ftp)://([^/?#]*)", v)
+        host = b""
+        if m:
+            hostport = m.group(2).rpartition(b"@")[2]
+            if hostport.startswith(b"["):
+                host = hostport[:hostport.find(b"]") + 1] if b"]" in hostport else b""
+            else:
+                host = stdre.sub(rb":\d*$", b"", hostport)
+        if not m or not host:
             msgs.append(f"network.url value {v[:80]!r} has no http/https/ftp scheme with a non-empty host")
         want = normalize_percent_spec(txt)
         if v != want:
